@@ -148,13 +148,26 @@ def scenarios(tier):
         if pname == 'subwf':
             menus.update(SUB_MENUS)
         for mname, m in menus.items():
-            for res in assigns:
-                tag = ''.join(res[k][0] for k in sorted(res))
+            m_assigns = list(assigns)
+            if mname in ('rerun_skip', 'stop_then_rerun') and keys and \
+                    pname not in ('retry1', 'items2', 'subwf'):
+                # the re-executed task succeeds at its second attempt
+                m_assigns.append({k: (['E', 'S'] if k == keys[0] else ['S'])
+                                  for k in keys})
+            for res in m_assigns:
+                tag = ''.join(''.join(res[k]) for k in sorted(res))
                 scn = LifeScenario(
                     '%s/%s/%s' % (pname, mname, tag), prog, results=res,
                     wf_input=None, **m)
-                jobs.append((scn, 0 if quick else 1,
-                             30 if quick else 900, 1))
+                k = 0 if quick else 1
+                if mname in ('rerun_skip', 'stop_then_rerun',
+                             'late_result') and pname in (
+                        'seq2', 'out2', 'err_route', 'retry1'):
+                    # commands that leave a request in flight (the restart
+                    # of the task): one schedule deviation lets a later
+                    # message overtake it
+                    k = 1 if quick else 2
+                jobs.append((scn, k, 30 if quick else 900, 1))
                 if mname in OVERLAP_MENUS and pname in OVERLAP_PROGS:
                     # the command lands inside a transaction of the engine
                     # that has only read so far (READ COMMITTED overlap)
